@@ -1,5 +1,5 @@
 SPECIFICATION Spec
-CONSTANTS HS = 12  TempCap = 32
+CONSTANTS HS = 12  TempCap = 32  BugPadding = FALSE
  BlockSizes = {0, 44}  IndexSizes = {8, 36}  PadSizes = {0, 4, 40}
  MaxStreams = 2  ReadSizes = {1, 7, 100000}  Damage = FALSE
 INVARIANTS TypeOK SeekInFile PosTruth OkConsumesAll ValidDecodes CombOrdered
